@@ -206,6 +206,13 @@ func runHist(op map[string]any) (any, error) {
 	parentSets := map[string][]*bkl.Document{}
 	res := []any{}
 	dead := false
+	// bytes handed out by Output are the caller's: they must not change when the parser (or any other
+	// evaluation) goes on working.  Each returned slice is kept together with a private copy.
+	type kept struct {
+		b []byte
+		s string
+	}
+	var retained []kept
 	for _, s := range steps {
 		step, _ := s.(map[string]any)
 		if dead {
@@ -269,6 +276,7 @@ func runHist(op map[string]any) (any, error) {
 			if err != nil {
 				res = append(res, errObj(err))
 			} else {
+				retained = append(retained, kept{b, string(b)})
 				res = append(res, map[string]any{"bytes": base64.StdEncoding.EncodeToString(b)})
 			}
 			continue
@@ -280,7 +288,14 @@ func runHist(op map[string]any) (any, error) {
 		}
 		return nil, fmt.Errorf("unknown step %v", step)
 	}
-	return map[string]any{"res": res}, nil
+	ret := map[string]any{"res": res}
+	for i, k := range retained {
+		if string(k.b) != k.s {
+			ret["retained_changed"] = i
+			break
+		}
+	}
+	return ret, nil
 }
 
 // runFiles evaluates real files through the library: chdir, optional SetRoot, FileMatch +
